@@ -160,7 +160,7 @@ pub fn generate(prop: &str, run_seed: u64, _index: u64, tier: Tier) -> Trace {
                 Op::new(k, &[carrier, m, v, align_arg(&mut r, big), r.below(4) / 3])
             }
             K_GROW => {
-                let (m, v) = size_args(&mut r, false);
+                let (m, v) = size_args(&mut r, big);
                 let al = if r.chance(3, 4) { 64 } else { align_arg(&mut r, false) };
                 Op::new(k, &[carrier, r.below(64), m, v, al, r.below(4)])
             }
@@ -215,7 +215,7 @@ pub fn generate(prop: &str, run_seed: u64, _index: u64, tier: Tier) -> Trace {
                 }
                 Op::new(k, &[lv])
             }
-            K_TYPED => Op::new(k, &[r.below(6), r.below(32), r.below(8), *r.pick(&[0u64, 0, 1, 2, 3, 5, 8, 17, 40, 150]), r.below(2), r.below(256)]),
+            K_TYPED => Op::new(k, &[r.below(12), r.below(22), r.below(8), *r.pick(&[0u64, 0, 1, 2, 3, 5, 6, 7, 8, 17, 40, 150]), r.below(2), r.below(256)]),
             K_TRIPLE => {
                 let (m, v) = size_args(&mut r, false);
                 Op::new(k, &[carrier, m, v, align_arg(&mut r, false)])
